@@ -46,6 +46,15 @@ def main():
             if hasattr(mod, "attach"):
                 mod.attach(ctx, shard)
             try:
+                if not shard.get("bare") and not shard.get("cold") and shard.get("mode", "raise") == "raise":
+                    from rv import history
+                    saved = ctx.violations, ctx.vio_index, ctx.vio_total
+                    ctx.violations, ctx.vio_index, ctx.vio_total = [], {}, 0     # refused calls may trip contracts; not judged here
+                    history.fault_stir(ctx)
+                    ctx.violations, ctx.vio_index, ctx.vio_total = saved
+                if shard.get("before_history"):
+                    from rv import history
+                    history.stir(ctx)           # unrelated calls come first: the workload meets warm, foreign state
                 mod.run(shard, ctx)
                 if shard.get("after_history"):
                     from rv import history
